@@ -166,6 +166,7 @@ func (g *pcGen) translate(fn *pcFn) {
 			c.recRef[f] = f.defName() + " W fuel"
 		}
 	}
+	c.liftTop = true
 	b := c.stmts(body.List, c.ret0())
 	var lines []string
 	doc := fn.pkg.tpkg.Name() + "." + fn.key
